@@ -27,7 +27,19 @@ func Subscribe() *ControlChans {
 		PauseCh:  make(chan struct{}, 1), // Buffered to ensure non-blocking sends
 		ResumeCh: make(chan struct{}),    // Unbuffered, will block on send
 	}
+	// A subscriber that joins while the pipeline is paused (a stage worker that had not started yet
+	// when Pause was called) is paused too: Pause only signals the subscribers it finds, and the next
+	// Resume waits for an acknowledgement from every subscriber, this one included. Joining is
+	// serialised with Resume, so that a subscriber is either waited for by a Resume or joins after it.
+	manager.resumeMu.Lock()
+	defer manager.resumeMu.Unlock()
 	manager.subscribers.Store(chans, struct{}{})
+	if manager.isPaused.Load() {
+		select {
+		case chans.PauseCh <- struct{}{}:
+		default:
+		}
+	}
 	return chans
 }
 
